@@ -664,7 +664,7 @@ class C07:
             cases = cases[sh["index"]::6]
         else:
             cases = [gen_random(rng) for _ in range(sh["n"])]
-        for i, case in enumerate(cases):
+        for i, case in enumerate(harness.budgeted(cases, rec)):
             if i < 2:
                 rec.sample({"src": render(case)}, sh["kind"])
             self.run_case(case, rec)
